@@ -47,6 +47,7 @@ class MBox(Symbol):
     main: MItem = None
     items: List[MItem] = field(default_factory=list)
     name: str = ""
+    labels: List[str] = field(default_factory=list)  # a collection of builtin values
 
     def __repr__(self):
         return self.name
